@@ -95,8 +95,10 @@ def install_capture():
     for meth in ("get_element", "_get_element_idx", "xpath", "get_elements"):
         wrap(E.Element, meth)
     import odfdo.element_cached as EC
-    if "get_elements" in vars(EC.ElementCached if hasattr(EC, "ElementCached") else object):
-        wrap(EC.ElementCached, "get_elements")
+    for cname in ("CachedElement", "ElementCached"):            # subclasses overriding get_elements (Table, Row)
+        cls = getattr(EC, cname, None)
+        if cls is not None and "get_elements" in vars(cls):
+            wrap(cls, "get_elements")
 
 
 def dedupe(qs):
@@ -348,12 +350,8 @@ def _removed(root, action, dedupe_roles=False, only=None):
     for r in after:
         if r in gone:
             gone.remove(r)
-    if dedupe_roles:
-        gone = sorted(set(gone), key=gone.index)
-    else:
-        # a stored object may consist of several marked nodes: report each role once
-        gone = sorted(set(gone), key=gone.index)
-    return gone
+    # a stored object may consist of several marked nodes: report each role once
+    return sorted(set(gone), key=gone.index)
 
 
 def _changed(manifest, action):
@@ -432,6 +430,8 @@ def make_host(o, site, objs):
         d = o.Document("text")
         m = d.manifest
         r = node(m.root)
+        for child in list(r):            # the template's own entries (one of them is "/") would collide with identifiers
+            r.remove(child)
         for role, name in objs:
             n = etree.SubElement(r, "{%s}file-entry" % MANIFEST_NS)
             n.set("{%s}full-path" % MANIFEST_NS, name)
@@ -580,6 +580,7 @@ def cs(s):
 
 HEADER = r'''Require Import XPathLit. From Coq Require Import List NArith Bool Arith. Import ListNotations.
 Open Scope N_scope.
+Set Printing Width 1000000.   (* the (index, code) pairs are read back by a regular expression: no line breaks inside them *)
 Definition plain : str := [112;108;97;105;110].
 Fixpoint cmp_toks (v : str) (tq tb : list tok) : nat :=
   match tq, tb with
@@ -631,16 +632,25 @@ Definition chk (c : str * list str * list str * list N * list N * bool) : nat :=
          else if fid v qs bs then 0%nat else 9%nat
   | k => k
   end.
-(* direct call of make_xpath_query(prefix, **{attribute: identifier}):  (prefix, attribute, identifier, query) *)
+(* direct call of make_xpath_query(prefix, **{attribute: identifier}):  (prefix, attribute, identifier, query).
+   Property level: the query lexes to  prefix[@attribute=  <the identifier as one string token>  ]  (white space
+   between tokens is immaterial in XPath).  Exact text = prefix ++ pred attribute identifier, read back by
+   parse_pred: fidelity only. *)
 Definition chk_pred (c : str * str * str * str) : nat :=
   let '(pre, a, v, q) := c in
-  match strip_prefix pre q with
-  | None => 3%nat
-  | Some p => match parse_pred p with
-              | None => 1%nat
-              | Some (a', v') => if negb (str_eqb v' v) then 2%nat else if negb (str_eqb a' a) then 3%nat
-                                 else if str_eqb p (pred a v) then 0%nat else 9%nat
-              end
+  match skeleton q with
+  | None => 1%nat
+  | Some [TOther x; TStr v'; TOther y] =>
+      if negb (str_eqb x (nows (pre ++ [LBRA; AT] ++ a ++ [EQS])) && str_eqb y [RBRA]) then 3%nat
+      else if negb (str_eqb v' v) then 2%nat
+      else match strip_prefix pre q with
+           | Some p => match parse_pred p with
+                       | Some (a', v'') => if str_eqb a' a && str_eqb v'' v && str_eqb p (pred a v) then 0%nat else 9%nat
+                       | None => 9%nat
+                       end
+           | None => 9%nat
+           end
+  | Some _ => 3%nat
   end.
 (* Manifest.make_file_entry: (identifier, attribute value read by lxml, raw text between the quotes in the serialisation, raised) *)
 Definition chk_xml (c : str * str * str * bool) : nat :=
@@ -759,8 +769,16 @@ def evaluate(o, sites, work):
             codes[cases[j][0]] = code
     TIMES["coq"] = TIMES.get("coq", 0) + time.time() - t_coq
     out = []
+    by_key = {s.key: s for s in sites}
     for idx, (w, rec) in enumerate(recs):
         code = codes.get(idx, 0)
+        if errors and code == 0 and rec.get("kind") == "lookup" and not rec.get("rejected"):
+            # the Coq evaluation broke: direct Python oracle of the property on the implementation's answer
+            exp = [r for r in by_key[rec["site"]].expect if r in rec.get("stored_roles", [])]
+            if any(r not in exp for r in rec["found"]):
+                code = 5
+            elif rec["raised"] or rec["found"] != exp:
+                code = 4
         if rec.get("kind") == "pred" and rec.get("raised"):
             code = 4
         out.append((w, rec, code))
@@ -842,7 +860,7 @@ def run(tier, seed, replay=None):
             elif s.main:
                 ids = EDGE + rng.sample(pool[len(EDGE):], 25 if quick else 500)
             else:
-                ids = (EDGE[::2] + rng.sample(shorter, 10)) if quick else (EDGE + rng.sample(shorter, 300))
+                ids = (EDGE[s.index % 3::3] + rng.sample(shorter, 8)) if quick else (EDGE + rng.sample(shorter, 300))
             if s.main and (not quick or s.key in ("get_table/name", "get_bookmark", "Manifest.get_media_type", "get_reference_mark/single",
                                                    "ReferenceMarkStart.referenced_text", "get_between/bookmarks")):
                 ids = small + ids; exhaustive_n += len(small)
